@@ -72,16 +72,16 @@ Proof.
   rewrite (N.compare_antisym (krank (fst x)) (krank (fst y))).
   destruct (krank (fst x) ?= krank (fst y)); cbn; auto. destruct (snd x), (snd y); auto.
 Qed.
-Lemma dom2_sym a v : dom2 a v = dom2 v a.
+Lemma dom2_sym a v : in_domain a v = in_domain v a.
 Proof.
-  unfold dom2, kf_long. rewrite (aligned_ok_sym (v_nums a)), (sufs_aligned_ok_sym (v_sufs a)),
+  unfold in_domain, kf_long. rewrite (aligned_ok_sym (v_nums a)), (sufs_aligned_ok_sym (v_sufs a)),
     (Nat.eqb_sym (optlen (v_rev a))), (kf_sufzero_sym (v_sufs a)).
   destruct (negb _), (kf_lead0 a), (kf_lead0 v), (kf_multisuf a), (kf_multisuf v); reflexivity.
 Qed.
 
 Definition plain_op (op : vop) : bool := match op with OpTilde | OpGlob => false | _ => true end.
 
-Theorem operators op a v : wf_ver a = true -> wf_ver v = true -> dom2 a v = true -> plain_op op = true ->
+Theorem operators op a v : wf_ver a = true -> wf_ver v = true -> in_domain a v = true -> plain_op op = true ->
   ver_compare (relop_of op) (enc a) (enc v) = Val (ver_match op a v).
 Proof.
   intros Wa Wv D P. assert (O : lcmp (enc v) (enc a) = vercmp v a) by (apply version_order; auto; now rewrite dom2_sym).
@@ -343,11 +343,11 @@ Proof.
     + cbn [negb andb] in K2. rewrite beq_sym, K2. now destruct ss.
 Qed.
 Lemma kf_ver_zero op a v : kf_ver op a v = 0 ->
-  dom2 a v = true
+  in_domain a v = true
   /\ match op with OpTilde => continues a v && negb (ver_match OpTilde a v) | _ => false end = false
   /\ match op, v_rev a, v_sufs a with OpGlob, Some _, [] => true | _, _, _ => false end = false.
 Proof.
-  unfold kf_ver, dom2. intros H.
+  unfold kf_ver, in_domain. intros H.
   destruct (kf_long a v); [discriminate|].
   destruct (kf_lead0 a); [discriminate|]. destruct (kf_lead0 v); [discriminate|]. cbn [orb] in H.
   destruct (kf_multisuf a); [discriminate|]. destruct (kf_multisuf v); [discriminate|]. cbn [orb] in H.
@@ -382,7 +382,7 @@ Qed.
 
 (* the version part of the decision, for the five plain operators *)
 Lemma ver_part_plain c d op v : wf c = true -> a_ver (c_atom c) = Some (op, v) ->
-  dom2 v (p_ver (c_pkg c)) = true -> plain_op op = true ->
+  in_domain v (p_ver (c_pkg c)) = true -> plain_op op = true ->
   (forall t, ver_compare (pa_verrelop (parse_atom (c_atom c))) (pa_compver (parse_atom (c_atom c))) t = Val (da_ver d t)) ->
   da_ver d (pa_compver (parse_pkg (c_pkg c))) = ver_match op v (p_ver (c_pkg c)).
 Proof.
